@@ -72,18 +72,65 @@ func c13Guard(c *c13, name string, replay func() any, f func()) {
 				msg = a.msg
 			}
 			c.st.OutcomeHistogram["scenario-aborted"]++
-			c.st.AddViolation("scenario could not be completed ("+name+"): "+msg, replay())
+			c.violation("scenario could not be completed ("+name+"): "+msg, replay())
 		}
 	}()
 	f()
 }
 
+// c13Finding is a monitor finding of a scenario whose outcome depends on how
+// member goroutines and the harness' block producer interleave in real time.
+type c13Finding struct {
+	what   string
+	replay any
+}
+
+// violation records a monitor finding: directly, or (inside c13Confirm) for confirmation.
+func (c *c13) violation(what string, replay any) {
+	if c.collect != nil {
+		*c.collect = append(*c.collect, c13Finding{what, replay})
+		return
+	}
+	c.st.AddViolation(what, replay)
+}
+
+// c13Confirm runs a scenario in which members run concurrently with the block
+// producer. Its findings (liveness within a block budget, idle re-runs, deposit
+// levels) are reported only if the SAME scenario, run once more on a fresh
+// chain with relaxed timing (slow = 4: block interval and waits x4, block
+// budgets x2), has findings again: a genuine defect fails at any speed, a
+// scheduling artefact of a loaded machine does not. Unconfirmed first-run
+// findings are counted in Stats.Extra["unconfirmed_timing_artifacts"].
+func c13Confirm(c *c13, name string, run func(slow int)) {
+	var first, second []c13Finding
+	c.collect = &first
+	run(1)
+	c.collect = nil
+	if len(first) == 0 {
+		return
+	}
+	c.collect = &second
+	run(4)
+	c.collect = nil
+	if len(second) == 0 {
+		n, _ := c.st.Extra["unconfirmed_timing_artifacts"].(int)
+		c.st.Extra["unconfirmed_timing_artifacts"] = n + 1
+		l, _ := c.st.Extra["unconfirmed_timing_artifacts_detail"].([]string)
+		c.st.Extra["unconfirmed_timing_artifacts_detail"] = append(l, name+": "+first[0].what)
+		return
+	}
+	for _, f := range second {
+		c.st.AddViolation(f.what, f.replay)
+	}
+}
+
 type c13 struct {
-	t     testing.TB
-	st    *Stats
-	cases []string
-	seen  map[string]bool // distinct case texts
-	nontr int
+	collect *[]c13Finding
+	t       testing.TB
+	st      *Stats
+	cases   []string
+	seen    map[string]bool // distinct case texts
+	nontr   int
 }
 
 func (c *c13) add(kind string, nontrivial bool, text string) {
